@@ -177,7 +177,11 @@ func runC04(t *testing.T, c FaultCase) (*h.Violation, h.Info) {
 	if got, _ := stdoutField(dry.Stdout, "DUMP"); unquote(got) != postR {
 		return h.V("result-equals-model", "un-faulted %s produced state %s, model says %s", op, got, postR), info
 	}
-	if v := monitor(win, dryPath); v != nil {
+	dryTarget := ""
+	if c.Symlink && !create {
+		dryTarget = dryPath + ".real"
+	}
+	if v := monitor(win, dryPath, dryTarget); v != nil {
 		v.Detail = fmt.Sprintf("%s (operation %s): %s", opKind, op, v.Detail)
 		return v, info
 	}
@@ -205,7 +209,11 @@ func runC04(t *testing.T, c FaultCase) (*h.Violation, h.Info) {
 			results[i].v = judge(f, o, path, create, op, preBytes, preR, postR, preRetry.M.Render(false), postRetry.M.Render(false))
 			if results[i].v == nil {
 				// also when a step fails, the way out is never to write the live file in place
-				if v := monitorInPlace(windowOpen(o.Main), path); v != nil {
+				target := ""
+				if c.Symlink && !create {
+					target = path + ".real"
+				}
+				if v := monitorInPlace(windowOpen(o.Main), path, target); v != nil {
 					v.Detail = fmt.Sprintf("with %s: %s", f, v.Detail)
 					results[i].v = v
 				}
